@@ -576,7 +576,22 @@ def v_mul(x, y):
     return SymFloat(x.val * y.val, nan, b_and(inf, b_not(neg)), b_and(inf, neg))
 
 
+def _is_abs_of(y, x):
+    """y.val is the term v_abs builds for x.val"""
+    e = y.val
+    if z3.is_app_of(e, z3.Z3_OP_ITE) and e.num_args() == 3:
+        c, a, b = e.arg(0), e.arg(1), e.arg(2)
+        if a.get_id() == x.val.get_id() and z3.is_app_of(c, z3.Z3_OP_GE) and c.arg(0).get_id() == x.val.get_id():
+            neg = z3.simplify(-x.val)
+            return z3.simplify(b).get_id() == neg.get_id()
+    return False
+
+
 def v_div(x, y):
+    if x.plain and y.plain and x.nan is False and y.nan is False and _is_abs_of(y, x):
+        # x / |x| = sign(x): keeps step-sign computations linear (0/0 = NaN)
+        zero = _fold(z3.simplify(x.val == 0))
+        return SymFloat(z3.If(x.val > 0, z3.RealVal(1), z3.RealVal(-1)), zero)
     yz = _zero(y)
     if x.plain and y.plain and yz is False:
         return SymFloat(x.val / y.val, b_or(x.nan, y.nan))
@@ -888,6 +903,12 @@ class Token(str):
         t.bad = bad
         return t
 
+    def split(self, sep=None, maxsplit=-1):
+        return [self]      # a numeral contains no separator
+
+    def strip(self, chars=None):
+        return self
+
 
 def sym_float(x=0.0):
     """Shadow of builtin float() inside verif modules."""
@@ -989,3 +1010,36 @@ def sym_set(iterable=()):
     """The shadow installed as `set` (a function, so that module introspection
     with inspect.isclass does not see a new class)."""
     return SymSet(iterable)
+
+
+class SymArg(str):
+    """A command-line argument / text whose *structure* (separators) is
+    concrete and whose numerals are symbolic Tokens: `parts` is a list of
+    Tokens and separator strings, e.g. [a, ":", s, ":", b, ",", c]."""
+    parts = ()
+
+    def __new__(cls, parts):
+        t = str.__new__(cls, "".join(str(p) for p in parts))
+        t.parts = list(parts)
+        return t
+
+    def split(self, sep=None, maxsplit=-1):
+        if sep is None or maxsplit != -1:
+            raise Unsupported("SymArg.split without an explicit separator")
+        groups = [[]]
+        for p in self.parts:
+            if isinstance(p, Token) or p != sep:
+                if not isinstance(p, Token) and sep in p:
+                    raise Unsupported("separator inside a literal part")
+                groups[-1].append(p)
+            else:
+                groups.append([])
+        out = []
+        for g in groups:
+            if len(g) == 0:
+                out.append("")
+            elif len(g) == 1:
+                out.append(g[0])
+            else:
+                out.append(SymArg(g))
+        return out
